@@ -485,6 +485,8 @@ H("streams_reset_after_fin_acked_native", ["C11"], "replay-only", "connection::s
   [("x", "u8")], 4, [], ["SendStream::reset", "StreamsState::received_ack_of", "StreamsState::write_stream_frames"], "native replay body of E2 query e2_sendstream_reset_legality")
 H("space_sent_tail_native", ["C03", "C12"], "replay-only", "connection::spaces::sent_tail_native",
   [("n", "u16")], 4, [], ["PacketSpace::sent", "PacketSpace::take"], "native replay body of E2 query e2_packet_space_sent_tail_counter")
+H("packet_truncated_prefixes_native", ["C04", "C03"], "replay-only", "packet::truncated_prefixes_native",
+  [("sample", "u8")], 4, [], ["PartialDecode::new", "PartialDecode::finish", "PartialDecode::decrypt_header"], "native replay body of E2 query e2_decrypt_header_sample_bounds")
 H("streams_stop_sending_native", ["C11"], "replay-only", "connection::streams::stop_sending_native",
   [("state", "u8")], 4, [], ["StreamsState::received_stop_sending", "Send::try_stop", "SendStream::write"], "native replay body of E2 query e2_received_stop_sending")
 H("streams_reset_acked_native", ["C11"], "replay-only", "connection::streams::reset_acked_native",
